@@ -82,6 +82,7 @@ class P(Play):
     async def op_noise_subclass(self, step):
         """Subclass that adds helper methods and convention-named callbacks; its instance is driven."""
         base = self.rendered.cls
+        shape_before = [(s_.id, len(s_.transitions), sorted(str(e) for t in s_.transitions for e in t.events)) for s_ in base.states]
         calls = []
         ns = {"helper": lambda self: calls.append("helper"), "__module__": base.__module__}
         for name in step["names"]:
@@ -123,6 +124,9 @@ class P(Play):
                 raise Fail("subclass-misbehaves", f"step {self.i}: a subclass adding methods failed with {type(e).__name__}: {e}")
         self.labels.add("noise:subclass")
         self._noise_since = True
+        shape_after = [(s_.id, len(s_.transitions), sorted(str(e) for t in s_.transitions for e in t.events)) for s_ in base.states]
+        if shape_after != shape_before:
+            raise Fail("subclass-changed-base", f"step {self.i}: defining a subclass changed the transitions of the subject's class: {shape_before} -> {shape_after}")
         for name, ctx in self.ctxs.items():
             if ctx.H.log:
                 raise Fail("cross-instance-call", f"step {self.i}: driving a subclass instance produced records in the recorder of {name}: {ctx.H.log[:2]}")
@@ -147,6 +151,11 @@ def cases(draw, tier):
     provs = draw(st.sampled_from([("machine",), ("machine", "model"), ("machine", "model", "l0")]))
     async_mode = draw(st.sampled_from(["none", "none", "all", "mixed"]))
     spec = draw(gen.machine_spec(max_states=4, max_extra=5, providers=provs, async_mode=async_mode, sends=draw(st.sampled_from([False, False, True])), instance_cbs=True))
+    if draw(st.booleans()):
+        from .c15 import plan
+
+        bundles = draw(gen.add_bundle(spec))
+        spec["style"] = draw(plan(spec, bundles, any(c["scope"][0] == "state" and c["attach"] != "conv" for c in spec["cbs"])))
     other = draw(gen.machine_spec(max_states=3, max_extra=4, providers=provs, async_mode=draw(st.sampled_from(["none", "all"])), sends=False))
     # the unrelated definition uses the very same callback names where it can
     is_async = gen.is_async_spec(spec)
